@@ -10,6 +10,7 @@ from vmon.checks import tokcommon as tc
 from vmon.checks.common import obs, fail
 
 TRACK_CHANNELS = "piece"   # worker: every fourth case moves each track's notes to another channel
+SCALE = True   # worker: every fortieth case (or SCALE_EVERY-th) is blown up by scale_case below
 PROP = "C19"
 MONITORS = ["tokenise", "theory"]
 ALSO = ()
@@ -27,6 +28,10 @@ FLOORS = {"quick": {"c19.note_tokens_checked": 10000, "#c19.flags.": 16, "c19.to
                     "c19.midbar_signature_token": 150, "c19.bar_token_in_partly_filled_bar": 150, "c19.bar_token_after_overshooting_rests": 12},
           "thorough": {"c19.note_tokens_checked": 500000, "#c19.flags.": 16}}
 
+
+def scale_case(case, i):
+    if case["kind"] == "random":
+        case["long_midbar"] = i
 
 def make_case(rng, i, tier):
     cfg = tc.rand_cfg(rng, i=i % 16)
@@ -118,7 +123,22 @@ def run(case, ctx):
         else:
             stream = [rnd.choice(notes_t) if rnd.random() < case["p_note"] else pick_other() for _ in range(case["length"])]
         LOG.n("c19.random_streams")
-    if len(stream) > 160:
+    if case.get("long_midbar"):
+        # a long stream (model output): more than a hundred signature tokens in the middle of bars, then bar tokens and notes
+        rnd2 = random.Random(case["long_midbar"])
+        vocab = list(tok.dictionary)
+        rests = [t for t in vocab if t.startswith("rst")]
+        tsgs = [t for t in vocab if t.startswith("tsg")]
+        notes_t = [t for t in vocab if "pit" in t]
+        stream = []
+        for _ in range(rnd2.randint(110, 180)):
+            stream += [rnd2.choice(rests), rnd2.choice(tsgs)]
+            if rnd2.random() < 0.3:
+                stream.append("bar")
+        for _ in range(6):
+            stream += ["bar", rnd2.choice(notes_t), rnd2.choice(rests)]
+        LOG.n("c19.long_stream_with_mid_bar_signatures")
+    elif len(stream) > 160:
         stream = stream[:160]
     if case.get("stream_seed", 0) % 2 == 0 or case["kind"] == "tokenise" and case["impute"]:
         # "streams that no tokenise call produced (for example model output)": tokens arrive as text, i.e. as string objects
